@@ -187,6 +187,10 @@ type Runner struct {
 	ShrinkReject func(req, impl, model string) bool
 	// TieOnly: a plain model/implementation mismatch is a broken tie, not a failing input.
 	TieOnly bool
+	// ShrinkBudget bounds the re-executions spent on shrinking one disagreement (default 60) and
+	// ShrinkMax the number of disagreements that get shrunk (default 40); lower them when one
+	// execution of a case is expensive.
+	ShrinkBudget, ShrinkMax int
 }
 
 func NewRunner(f *Flags, harness string, impl Impl, rule string) *Runner {
@@ -288,7 +292,11 @@ func (r *Runner) record(d Disagreement) {
 			d.Kind = "tie-broken"
 		}
 	}
-	if d.Case.Domain && len(r.Res.Disagreements) < 40 && !(d.Kind == "tie-broken" && r.tieKept >= 3) {
+	max := 40
+	if r.ShrinkMax > 0 {
+		max = r.ShrinkMax
+	}
+	if d.Case.Domain && len(r.Res.Disagreements) < max && !(d.Kind == "tie-broken" && r.tieKept >= 3) {
 		r.shrink(&d)
 	}
 	if d.Key == "" {
@@ -364,6 +372,9 @@ func (r *Runner) shrink(d *Disagreement) {
 	}
 	lines := append([]string{}, d.Case.Lines[:d.LineNo+1]...)
 	budget := 60
+	if r.ShrinkBudget > 0 {
+		budget = r.ShrinkBudget
+	}
 	lo := 0
 	if len(lines) > 0 && strings.HasPrefix(lines[0], "case") {
 		lo = 1
